@@ -93,7 +93,7 @@ def run(ctx):
                 bound = sc[v] * EPS * (abs(va) + 1)
             if abs(Mr - M) > bound:
                 kr.violation(be, "physical magnitude not preserved within the rounding of the amount type", op, r,
-                             f"|{float(Mr)} - {float(M)}| <= {float(bound)}", error=float(abs(Mr - M)))
+                             f"|{kc.ff(Mr)} - {kc.ff(M)}| <= {kc.ff(bound)}", error=kc.ff(abs(Mr - M)))
     return kr.result("every type with reference unit (catalogue, astronomical [f64], synthetic, dimensionless) x ALL ordered unit pairs x amounts "
                      "(structured, random, IEEE specials / decimal extremes): exact unit, same-unit identity, equiv_amount = stored amount, and "
                      "|a'*s_v - a*s_u| within (1+2^-53)^2-1 relative (f64, normal range) resp. s_v*(|a|+1)*0.5e-18 (decimal), judged with exact rationals "
